@@ -137,12 +137,36 @@ def install_seams():
 
 # ---- stdio -----------------------------------------------------------------
 
+class InteractiveStdin(io.TextIOBase):
+    """a user at a terminal: every line read is computed by ``fn`` from what
+    the process has printed so far (fn returns None for end of input)"""
+
+    def __init__(self, fn, stdio):
+        self._fn = fn
+        self._stdio = stdio
+        self.replies = []
+
+    def readable(self):
+        return True
+
+    def readline(self, size=-1):
+        rep = self._fn(self._stdio.outb.getvalue().decode('utf-8', 'surrogateescape'))
+        self.replies.append(rep)
+        return '' if rep is None else rep
+
+    def read(self, size=-1):
+        return self.readline()
+
+
 class Stdio(object):
-    def __init__(self, stdin_bytes):
+    def __init__(self, stdin_bytes, stdin_fn=None):
         self.inb = io.BytesIO(stdin_bytes)
         self.outb = io.BytesIO()
         self.errb = io.BytesIO()
-        self.stdin = io.TextIOWrapper(self.inb, encoding='utf-8', errors='strict')
+        if stdin_fn is not None:
+            self.stdin = InteractiveStdin(stdin_fn, self)
+        else:
+            self.stdin = io.TextIOWrapper(self.inb, encoding='utf-8', errors='strict')
         self.stdout = io.TextIOWrapper(self.outb, encoding='utf-8', errors='strict',
                                        write_through=True)
         self.stderr = io.TextIOWrapper(self.errb, encoding='utf-8', errors='backslashreplace',
@@ -198,12 +222,12 @@ class Swap(object):
             O.chdir('/')
 
 
-def make_proc(pid, spec):
+def make_proc(pid, spec, stdin_fn=None):
     p = Proc(pid, spec)
     p.argv = list(spec['argv'])
     p.env = dict(spec.get('env', {}))
     p.env.setdefault('COLUMNS', '80')
-    p.stdio = Stdio(spec.get('stdin', '').encode('utf-8', 'surrogateescape'))
+    p.stdio = Stdio(spec.get('stdin', '').encode('utf-8', 'surrogateescape'), stdin_fn)
     p.kill_at = spec.get('kill_at')
     p.kill_at_mut = spec.get('kill_at_mut')
     p.thread = threading.current_thread()
